@@ -12,6 +12,7 @@ import (
 	"encoding/json"
 	"fmt"
 	"os"
+	"runtime/pprof"
 	"sort"
 	"strings"
 	"testing"
@@ -73,6 +74,22 @@ func (d *treeDriver) violation(id, key, what string, det interface{}) {
 	}
 }
 
+// lostCallback records a request that returned without error but whose callback did not arrive. It is not a
+// statement of C07, so it is a divergence, kept visible with a goroutine dump; the node is replaced afterwards.
+func (d *treeDriver) lostCallback(id string, step int, op string, p []int, det map[string]interface{}) error {
+	var buf bytes.Buffer
+	_ = pprof.Lookup("goroutine").WriteTo(&buf, 1)
+	dump := buf.String()
+	if len(dump) > 12000 {
+		dump = dump[:12000]
+	}
+	det["goroutines"] = dump
+	d.out.Divergence(id, fmt.Sprintf("step %d: %s on %v returned no error but its callback did not arrive within %v", step, op, p, callbackTimeout), det)
+	return nil
+}
+
+const callbackTimeout = 20 * time.Second
+
 type pending struct {
 	bc  module.BlockCandidate
 	err error
@@ -99,7 +116,7 @@ func wait(ch chan pending) (pending, bool) {
 	select {
 	case r := <-ch:
 		return r, true
-	case <-time.After(30 * time.Second):
+	case <-time.After(callbackTimeout):
 		return pending{}, false
 	}
 }
@@ -259,7 +276,7 @@ func (d *treeDriver) run(idx int, steps []tstep) error {
 					// candidate back, which restores the tree as if the request had never been made
 					r, ok := wait(ch)
 					if !ok {
-						return fmt.Errorf("behaviour %d step %d: no callback", idx, i)
+						return d.lostCallback(id, i, s.Op, s.P, det(i, nil))
 					}
 					if r.bc != nil {
 						r.bc.Dispose()
@@ -272,7 +289,7 @@ func (d *treeDriver) run(idx int, steps []tstep) error {
 			if rerr == nil {
 				r, ok := wait(ch)
 				if !ok {
-					return fmt.Errorf("behaviour %d step %d: no callback", idx, i)
+					return d.lostCallback(id, i, s.Op, s.P, det(i, nil))
 				}
 				got = classify(r.err)
 				bc = r.bc
